@@ -195,7 +195,7 @@ theorem front_forall {P : Stmt → Prop} (hP : ∀ l s, parseLine l = .ok (some 
     {ls : List Str} {r : List Stmt} (h : front fs ls = .ok r) : ∀ s ∈ r, P s := by
   unfold front at h
   cases hp : parseLines ls with
-  | ok p => rw [hp] at h; exact expand_forall hP fs 64 [] p r (parseLines_forall hP ls p hp) h
+  | ok p => rw [hp] at h; exact expand_forall hP fs (includeFuel fs) [] p r (parseLines_forall hP ls p hp) h
   | _ => rw [hp] at h; cases h
 
 /-! ### where branch target indices come from -/
@@ -516,6 +516,6 @@ theorem assemble_prefix {fs : Files} {ls ext : List Str} {A B : Assembly}
 /-- a program without INCLUDE statements expands to itself -/
 theorem front_plain {fs : Files} {ls : List Str} {p : List Stmt} (hp : parseLines ls = .ok p)
     (hpl : ∀ s ∈ p, s.row.isInclude = false) : front fs ls = .ok p := by
-  unfold front; rw [hp]; exact expand_plain fs 63 [] p hpl
+  unfold front; rw [hp]; exact expand_plain fs fs.length [] p hpl
 
 end CoCo.Asm
